@@ -23,6 +23,10 @@ ADDR_SETS = {
 }
 
 
+# IPv6 peers standing in for the IPv4 ones when a scenario asks for IPv6 sources (layout 'dual')
+V6SRC = {'10.0.0.9': 'fe80::9', '10.0.0.23': 'fe80::23', '192.168.1.77': 'fd00::77', '10.0.0.44': 'fe80::44', '10.0.0.77': 'fe80::77'}
+
+
 def low(s: str) -> str:
     return ''.join(chr(ord(c) + 32) if 'A' <= c <= 'Z' else c for c in s)
 
@@ -121,6 +125,7 @@ class Recorder:
         self.browsers: List[Any] = []
         self.inj_count = 0
         self.dup_log: List[dict] = []
+        self.recv_counts: Dict[int, int] = {}
 
     def ev(self, _ev: str, **kw: Any) -> dict:
         if getattr(self, 'stopped', False):
@@ -151,6 +156,7 @@ class Recorder:
                 'ar': self.proj_records(m.additionals), 'len': len(data)}
 
     def _on_recv(self, e: dict, data: bytes) -> None:
+        self.recv_counts[e['sock']] = self.recv_counts.get(e['sock'], 0) + 1
         did = self.did.setdefault(data, len(self.did) + 1)
         p = self.proj_msg(data)
         libvalid = True
@@ -269,6 +275,28 @@ class Recorder:
             return 2
         return 1
 
+    def inject_copy(self, k: int, data: bytes, **kw: Any) -> None:
+        """The k-th copy of a datagram: the first one now, further ones 'dup_gap' ms later (0 = in the same instant).
+        A later copy is only delivered when it is still back to back, i.e. nothing else (not even the loopback of the
+        host's own answer) was delivered to that socket in between; otherwise the duplication is dropped from the run."""
+        gap = self.sc.get('dup_gap', 0)
+        if k == 0 or not gap:
+            self.host.inject(data, **kw)
+            return
+        loop = self.net.loop
+        entry = self.dup_log[-1] if self.dup_log else None
+        sock = kw.get('sock', 0)
+        mark = self.recv_counts.get(sock, 0)            # the first copy has been delivered already
+
+        def later() -> None:
+            if self.recv_counts.get(sock, 0) == mark:
+                if entry is not None:
+                    entry['t'] = self.net.now()
+                self.host.inject(data, **kw)
+            elif entry is not None and entry in self.dup_log:
+                self.dup_log.remove(entry)
+        loop.call_at(loop.time() + k * gap / 1000.0, later)
+
     def build_response(self, st: dict) -> bytes:
         ans = []
         for r in st['recs']:
@@ -351,12 +379,17 @@ class Recorder:
             elif op == 'query':
                 data = self.build_query(st)
                 src = st.get('src', '10.0.0.9')
-                for _ in range(st.get('copies', 1) * self.dup_factor(data)):
-                    self.host.inject(data, src=src, port=st.get('port', 5353), sock=st.get('sock', 0), tag=st.get('tag'))
+                if self.sc.get('v6src'):
+                    src = V6SRC.get(src, src)
+                for k in range(st.get('copies', 1) * self.dup_factor(data)):
+                    self.inject_copy(k, data, src=src, port=st.get('port', 5353), sock=st.get('sock', 0), tag=st.get('tag'))
             elif op == 'resp':
                 data = self.build_response(st)
-                for _ in range(self.dup_factor(data)):
-                    self.host.inject(data, src=st.get('src', '10.0.0.44'), tag='resp')
+                src = st.get('src', '10.0.0.44')
+                if self.sc.get('v6src'):
+                    src = V6SRC.get(src, src)
+                for k in range(self.dup_factor(data)):
+                    self.inject_copy(k, data, src=src, tag='resp')
             elif op == 'lookup':
                 self.bg.append(asyncio.ensure_future(self.lookup(st)))
             elif op == 'bstart':
